@@ -125,13 +125,14 @@ AXIOM_SCHEMAS = [
     "a>0 -> ln(pow(a,b)) = b*ln(a)",
     "all f_i>0 -> ln(prod f_i^e_i) = sum e_i*ln(f_i)",
     "a>0 -> pow(a,b)>0; pow(a,0)=1; pow(1,b)=1; pow(a,1)=a; a>0 -> pow(a,k)=a^k for integer literal |k|<=8",
-    "a>0 -> pow(a,b+c)=pow(a,b)*pow(a,c); pow(a,k*b)=pow(a,b)^k (k integer literal); pow(a,-b)*pow(a,b)=1",
+    "a>0 -> pow(a,b+c)=pow(a,b)*pow(a,c); pow(a,k*b)=pow(a,b)^k (k integer literal |k|<=16, in any spelling incl. quotients); pow(a,-b)*pow(a,b)=1",
     "a>0 -> pow(pow(a,b),c)=pow(a,b*c); all f_i>0 -> pow(prod f_i^e_i,b)=prod pow(f_i,b)^e_i",
     "root(n,a)^n=a for odd n or a>=0; sign(root(n,a))=sign(a) (a<0 only for odd n); root(n,0)=0",
     "root(n,a)^g=root(n/g,a) for g|n (a>0 or n odd)",
     "root(n,root(m,a))=root(n*m,a) (a>0 or n*m odd)",
     "root(n,prod f_i^e_i)=prod root(n,f_i)^e_i (n odd, or all f_i>0; f_i!=0 for negative e_i)",
-    "-1<=sin,cos<=1; sin(-a)=-sin(a); cos(-a)=cos(a); sin(0)=0; cos(0)=1",
+    "-1<=sin,cos<=1; sin(-a)=-sin(a); cos(-a)=cos(a) (canonical spelling; also for products/quotients with an odd number of negative numeric "
+    "factors; and between the trig terms present: a = -b -> sin a = -sin b, cos a = cos b); sin(0)=0; cos(0)=1",
     "ground arguments: 35-digit mpmath enclosures; exact values where rational",
 ]
 
@@ -144,6 +145,7 @@ class Theory:
         self.seen = {}
         self.depth = 0
         self.lns = []
+        self.trigs = {}
 
     def _mk(self, t, mkax):
         k = t.get_id()
@@ -233,7 +235,7 @@ class Theory:
                         kf *= gf ** e
                     else:
                         rest.append((f, e))
-                if rest and kf != 1 and kf.denominator == 1 and abs(kf.numerator) <= 8:
+                if rest and kf != 1 and kf.denominator == 1 and abs(kf.numerator) <= 16:
                     restt = z3.RealVal(1)
                     for f, e in rest:
                         restt = restt * ipow(f, e) if e >= 0 else restt / ipow(f, -e)
@@ -305,6 +307,13 @@ class Theory:
 
     def _trig(self, F, mpf_, a, zero_val, parity):
         a = z3.simplify(a)
+        # canonical spelling: sin(-u) is written -sin(u), cos(-u) is written cos(u) (true identities, applied when the argument is
+        # syntactically "negative-leading"), so that nested occurrences such as sin(sin(-x)) need no further instances
+        if ground(a) is None:
+            na = z3.simplify(-a)
+            if len(str(na)) < len(str(a)):
+                inner = self._trig(F, mpf_, na, zero_val, parity)
+                return -inner if parity == -1 else inner
         t = F(a)
 
         def ax():
@@ -313,6 +322,11 @@ class Theory:
             if g is not None:
                 out.append(t == zero_val if g == 0 else enclosure(t, mpf_(mp(g))))
                 return out
+            # symmetry between the trig terms present: arguments that are equal / opposite IN VALUE (not only in spelling)
+            reg = self.trigs.setdefault(F.name(), [])
+            for (oa, ot) in reg:
+                out.append(z3.Implies(a == -oa, t == (parity * ot)))
+            reg.append((a, t))
             na = z3.simplify(-a)
             if len(str(na)) < len(str(a)):
                 other = self.sin(na) if F is SIN else self.cos(na)
